@@ -1,7 +1,495 @@
-from ..model import AnalysisError
+"""C02 - stores conserve items: every get returns one distinct, previously put item (store level, partial).
+
+  R1 multiset neutrality: along every non-raising path of every entry point / process the objects removed
+     from the holding lists minus those re-added are {returned} for get, −{item} for put, ∅ otherwise
+     (symbolic object identity modulo the wrap shape of R2);
+  R2 wrap/unwrap agreement: the element shape an Edge.put stores is the shape move_to_ready_items unwraps;
+     Edge.get returns what the store's get returns;
+  R3 binding discipline, read off the binder `_do_reserve_get` (prefix / suffix / positional), is preserved
+     by every other mutator of A, RE, RI (arrivals, get, cancellation) - symbolic index algebra;
+  R4 lock-step: |RE| = |RG| (= |RI|) at every stable point, the get-grant is guarded by the strict
+     |RG| < |A|, and nothing runs between RG.append and the RE/RI append (binding is atomic).
+"""
+from __future__ import annotations
+
+import ast
+from collections import Counter
+
+from .. import lin, paths, storewalk, tables
+from ..model import AnalysisError, Project, self_attr, walk_no_nested
+from ..report import Result
+from ..tables import RP, RG, RE, RI, TRIGGERS
+from .common import events_atoms, site, src, sum_lin, status_str
+
 PROP = 'C02'
 LEVEL = 'other'
 
 
-def run(p, tier):
-    raise AnalysisError('rule module for C02 not implemented yet (fail closed)')
+def run(p: Project, tier: str) -> Result:
+    r = Result(PROP)
+    r.explanation = ('Store-level conservation: symbolic multiset neutrality of every entry point, wrap/unwrap agreement between edge and '
+                     'store, the binding discipline (which item a granted retrieval owns) preserved by every mutator, lock-step of the '
+                     'binding lists. Necessary conditions; with the known findings repaired they are the whole inductive argument.')
+    r.rule('C02.R1', 'multiset neutrality of every store entry point / process', 50)
+    r.rule('C02.R2', 'edge wrap shape = store unwrap shape; Edge.get returns the store item', 8)
+    r.rule('C02.R3', 'binding discipline preserved by arrivals, get and cancellation', 24)
+    r.rule('C02.R4', 'lock-step |RE| = |RG| (= |RI|); strict get-grant guard; atomic binding', 40)
+    r.assumptions = ['object identity of items is tracked through list positions and locals', 'cooperative scheduling']
+    r.not_decided = ['belt-specific timing; everything above the store level is C03']
+    ws = storewalk.walks(p, assume_inv=('I1',))
+    for w in ws:
+        r.paths += w.npaths
+        check_multiset(p, w, r, 'C02.R1')
+        binding_checks(p, w, r, 'C02.R3', which=('binder', 'arrival', 'get', 'cancel'))
+        check_lockstep(p, w, r, 'C02.R4')
+    check_wrap(p, ws, r, 'C02.R2')
+    return r
+
+
+# -------------------------------------------------------------------------------------------- R1
+def payload(v, L, store):
+    """identity of the flow item carried by list element value v of list L"""
+    if store.wraps and L == 'items':
+        if v is not None and v[0] == 'tuple' and len(v[1]) == 2:
+            return v[1][0]
+        return ('sub', v, ('const', 0))
+    return v
+
+
+def check_multiset(p, w, r, rule):
+    s = w.store
+    H = set(s.holders)
+    for root, ps in w.roots.items():
+        if root in TRIGGERS:
+            continue
+        fi = w.root_funcs[root]
+        r.analysed_functions.add(fi.key)
+        key = f'{s.ci.label}.{root}::multiset'
+        bad = None
+        n = 0
+        params = [a.arg for a in fi.node.args.args if a.arg != 'self']
+        for pa in ps:
+            if pa.raises or pa.status == 'loopcut':
+                continue
+            n += 1
+            removed = Counter()
+            added = Counter()
+            for e in pa.events:
+                if e.kind == 'op' and e.list in H:
+                    if e.op == 'pop':
+                        removed[payload(e.result, e.list, s)] += 1
+                    elif e.op == 'remove':
+                        removed[payload(e.val, e.list, s)] += 1
+                    elif e.op in ('append', 'insert'):
+                        added[payload(e.val, e.list, s)] += 1
+                elif e.kind in ('listcall', 'rebind') and e.d.get('list') in H:
+                    bad = (pa, f'`{e.d.get("list")}` is modified by `{e.d.get("op", "rebinding")}`, which the conservation argument does not cover')
+            net_out = removed - added
+            net_in = added - removed
+            if root == 'get':
+                ret = pa.st.ret
+                want = Counter({ret: 1})
+                if net_in or net_out != want:
+                    bad = (pa, f'get removes {fmt(net_out)} and adds {fmt(net_in)}; it must remove exactly the item it returns ({short(ret)})')
+            elif root == 'put':
+                itemv = ('param', params[1]) if len(params) > 1 else None
+                want = Counter({payload(itemv, 'items', s): 1})
+                if net_out or net_in != want:
+                    bad = (pa, f'put adds {fmt(net_in)} and removes {fmt(net_out)}; it must add exactly its item argument')
+            else:
+                if net_in or net_out:
+                    bad = (pa, f'{root} is not neutral: removes {fmt(net_out)}, adds {fmt(net_in)} (item lost or duplicated)')
+        if n == 0:
+            continue
+        if bad:
+            r.fail(rule, key, bad[1], src(fi.module), fi.node.lineno, bad[0].describe())
+        else:
+            r.ok(rule, key, f'neutral on {n} non-raising path(s)', src(fi.module), fi.node.lineno)
+
+
+def short(v):
+    s_ = repr(v)
+    return s_ if len(s_) < 70 else s_[:67] + '...'
+
+
+def fmt(c: Counter):
+    return '{' + ', '.join(f'{short(k)}×{n}' for k, n in c.items()) + '}' if c else '∅'
+
+
+# -------------------------------------------------------------------------------------------- R2
+def check_wrap(p, ws, r, rule):
+    bykey = {w.store.ci.key: w for w in ws}
+    for ci in tables.edge_classes(p):
+        attr, skeys = tables.edge_store_attr(p, ci)
+        s = bykey[skeys[0]].store
+        for mname in ('put', 'get'):
+            fi = ci.methods.get(mname)
+            if fi is None:
+                continue
+            r.analysed_functions.add(fi.key)
+            ex = paths.Explorer(p, ci.key, tracked=set(), atomic=set(p.methods(ci.key)), proto={'put', 'get', 'handle_new_item_during_interruption'}, unroll=1)
+            ps = ex.paths(fi)
+            r.paths += len(ps)
+            key = f'{fi.key}::{"wrap" if mname == "put" else "returns-store-item"}'
+            bad = None
+            par = [a.arg for a in fi.node.args.args if a.arg != 'self']
+            for pa in ps:
+                if pa.raises:
+                    continue
+                calls = [e for e in pa.events if e.kind == 'pcall' and e.name == mname and e.recv == f'self.{attr}']
+                if len(calls) != 1:
+                    continue        # delegation count is C01.O7
+                c = calls[0]
+                if mname == 'put':
+                    itemv = ('param', par[1]) if len(par) > 1 else None
+                    a = c.args[1] if len(c.args) > 1 else None
+                    if s.wraps:
+                        okw = a is not None and a[0] == 'tuple' and len(a[1]) == 2 and a[1][0] == itemv
+                        if not okw:
+                            bad = (pa, f'the store unwraps element[0] when an item turns ready, but the edge stores {short(a)} (expected (item, delay))')
+                    else:
+                        if a != itemv:
+                            bad = (pa, f'the store keeps elements as they are, but the edge stores {short(a)} instead of the item')
+                else:
+                    if pa.st.ret != c.result:
+                        bad = (pa, f'Edge.get returns {short(pa.st.ret)}, not the item returned by the store')
+            if bad:
+                r.fail(rule, key, bad[1], src(fi.module), fi.node.lineno, bad[0].describe())
+            else:
+                r.ok(rule, key, '(item, delay) tuples' if (mname == 'put' and s.wraps) else ('bare items' if mname == 'put' else 'store item returned'),
+                     src(fi.module), fi.node.lineno)
+
+
+# -------------------------------------------------------------------------------------------- R3
+def binder_disciplines(p, w):
+    """{mode-polarity-or-None: (kind, event)} read off the granting paths of _do_reserve_get."""
+    s = w.store
+    fi = s.methods['_do_reserve_get']
+    ex = paths.Explorer(p, s.ci.key, tracked=set(s.lists), atomic={tables.LEVEL_UPDATER, *TRIGGERS}, unroll=2)
+    out = {}
+    problems = []
+    for pa in ex.paths(fi):
+        if pa.raises:
+            continue
+        grant = next((e for e in pa.events if e.kind == 'op' and e.list == RG and e.op == 'append'), None)
+        if grant is None:
+            continue
+        mode = mode_polarity(pa)
+        if s.has_ri:
+            b = next((e for e in pa.events if e.kind == 'op' and e.list == RI and e.op == 'append'), None)
+            if b is None:
+                problems.append((pa, grant, 'granting path records no bound item in reserved_items'))
+                continue
+            v = b.val
+            re_before = None
+            for e in pa.events:
+                if e.kind == 'op' and e.list == RE and e.op == 'append':
+                    re_before = e.len_before
+            if not (v is not None and v[0] == 'elem' and v[1] == s.avail):
+                problems.append((pa, b, f'bound item is {short(v)}, not an element of {s.avail}'))
+                continue
+            idx = v[2]
+            il = as_lin(idx)
+            re0 = re_before if re_before is not None else lin.lvar(RE)     # |RE| just before this binding is recorded
+            if il is not None and lin.norm(il) == lin.norm(re0):
+                out[mode] = ('prefix', b, pa)
+            elif il is not None and lin.norm(il) == lin.norm(lin.ladd(lin.lconst(-1), re0, -1)):
+                out[mode] = ('suffix', b, pa)
+            else:
+                problems.append((pa, b, f'binder index {short(idx)} is neither |RE| (FIFO) nor −1−|RE| (LIFO)'))
+        else:
+            b = next((e for e in pa.events if e.kind == 'op' and e.list == RE and e.op == 'append'), None)
+            if b is None:
+                problems.append((pa, grant, 'granting path records no binding in reserved_events'))
+                continue
+            out[mode] = ('positional', b, pa)
+    return out, problems
+
+
+def as_lin(v):
+    if v is None:
+        return None
+    if v[0] == 'lin':
+        return dict(v[1])
+    if v[0] == 'const' and isinstance(v[1], int):
+        return lin.lconst(v[1])
+    return None
+
+
+def mode_polarity(pa):
+    for e in pa.events:
+        if e.kind == 'cond' and not e.d.get('synthetic') and 'self.mode' in e.text and 'FIFO' in e.text:
+            return e.polarity
+        if e.kind == 'cond' and not e.d.get('synthetic') and 'self.mode' in e.text and 'LIFO' in e.text:
+            return not e.polarity
+    return None
+
+
+def mode_name(m):
+    return {True: 'FIFO', False: 'LIFO', None: 'FIFO'}[m]
+
+
+def discipline_for(disc, mode):
+    if mode in disc:
+        return disc[mode]
+    if None in disc:
+        return disc[None]
+    if mode is None and len(disc) == 1:
+        return list(disc.values())[0]
+    return None
+
+
+def feasible_modes(p, store):
+    """polarities of `self.mode == 'FIFO'` that a constructor of this class can produce (a subclass may fix the mode)"""
+    init = store.ci.methods.get('__init__')
+    if init is None:
+        return {True, False, None}
+    for n in walk_no_nested(init.node):
+        if isinstance(n, ast.Call) and isinstance(n.func, ast.Attribute) and n.func.attr == '__init__' \
+                and isinstance(n.func.value, ast.Call) and ast.unparse(n.func.value.func) == 'super':
+            for k in n.keywords:
+                if k.arg == 'mode' and isinstance(k.value, ast.Constant):
+                    return {k.value.value == 'FIFO', None}
+    return {True, False, None}
+
+
+def binding_checks(p, w, r, rule, which=('binder', 'arrival', 'get', 'cancel')):
+    s = w.store
+    A = s.avail
+    disc, problems = binder_disciplines(p, w)
+    feas = feasible_modes(p, s)
+    disc = {m: d for m, d in disc.items() if m in feas}
+    bfi = s.methods['_do_reserve_get']
+    r.analysed_functions.add(bfi.key)
+    if 'binder' in which:
+        for pa, e, msg in problems:
+            r.fail(rule, f'{s.ci.label}._do_reserve_get::binder', msg, src(e.fi.module), e.line, pa.describe())
+        if not disc and not problems:
+            r.fail(rule, f'{s.ci.label}._do_reserve_get::binder', 'no granting path found', src(bfi.module), bfi.node.lineno)
+        for mode, (kind, e, pa) in disc.items():
+            r.ok(rule, f'{s.ci.label}._do_reserve_get::binder[{mode_name(mode)}]', f'{kind}: binds {A}[{"|RE|" if kind != "suffix" else "−1−|RE|"}]',
+                 src(e.fi.module), e.line)
+    if not disc:
+        return
+    # ---- arrivals: appends to A outside the cancellation
+    if 'arrival' in which:
+        seen = {}
+        for root, ps in w.roots.items():
+            if root in ('reserve_get_cancel',) or root in TRIGGERS:
+                continue
+            for pa in ps:
+                if pa.raises:
+                    continue
+                for e in pa.events:
+                    if e.kind == 'op' and e.list == A and e.op in ('append', 'insert'):
+                        for mode, (kind, _, _) in disc.items():
+                            key = site(e.fi, e.node, f'arrival:{A}.{e.op}') + f'[{mode_name(mode)}]'
+                            ok, why = arrival_ok(kind, e)
+                            rec = seen.setdefault(key, {'ok': True, 'e': e, 'pa': pa, 'why': why})
+                            if not ok and rec['ok']:
+                                rec.update(ok=False, pa=pa, why=why)
+        for key, rec in sorted(seen.items()):
+            e = rec['e']
+            if rec['ok']:
+                r.ok(rule, key, rec['why'], src(e.fi.module), e.line)
+            else:
+                r.fail(rule, key, rec['why'], src(e.fi.module), e.line, rec['pa'].describe())
+    # ---- get: removes the bound item, same index in the parallel lists
+    if 'get' in which:
+        gfi = w.root_funcs['get']
+        key = f'{s.ci.label}.get::removes-bound-item'
+        bad = None
+        n = 0
+        for pa in w.roots['get']:
+            if pa.raises:
+                continue
+            n += 1
+            ok, why = get_ok(s, pa)
+            if not ok:
+                bad = (pa, why)
+        if bad:
+            r.fail(rule, key, bad[1], src(gfi.module), gfi.node.lineno, bad[0].describe())
+        elif n:
+            r.ok(rule, key, 'index of the token in reserved_events selects the item; token and item leave the parallel lists together',
+                 src(gfi.module), gfi.node.lineno)
+    # ---- cancellation of a granted retrieval
+    if 'cancel' in which:
+        cfi = w.root_funcs['reserve_get_cancel']
+        recs = {}
+        for pa in w.roots['reserve_get_cancel']:
+            if pa.raises:
+                continue
+            if not any(e.kind == 'op' and e.list == RG and e.op in ('remove', 'pop') for e in pa.events):
+                continue
+            mode = mode_polarity(pa)
+            modes = [mode] if mode is not None or len(disc) == 1 else list(disc)
+            for m in modes:
+                d = discipline_for(disc, m)
+                if d is None:
+                    continue
+                kind = d[0]
+                key = f'{s.ci.label}.reserve_get_cancel::reinsert[{mode_name(m)}]'
+                ok, why, ev = cancel_ok(s, kind, pa)
+                rec = recs.setdefault(key, {'ok': True, 'pa': pa, 'why': why, 'line': ev.line if ev else cfi.node.lineno})
+                if not ok and rec['ok']:
+                    rec.update(ok=False, pa=pa, why=why, line=ev.line if ev else cfi.node.lineno)
+        for key, rec in sorted(recs.items()):
+            if rec['ok']:
+                r.ok(rule, key, rec['why'], src(cfi.module), rec['line'])
+            else:
+                r.fail(rule, key, rec['why'], src(cfi.module), rec['line'], rec['pa'].describe())
+
+
+def arrival_ok(kind, e):
+    if kind in ('prefix', 'positional'):
+        if e.op == 'append':
+            return True, 'appended behind every reserved item (the reserved block is a prefix)'
+        return False, f'arrival inserted at {short(e.idx)}: it can split the reserved prefix block'
+    # suffix (LIFO): the reserved block is the top of the list; an append lands on top of it
+    if e.op == 'append':
+        return False, ('LIFO binds the top |RE| items, but a new arrival is appended on top of them: with a reservation outstanding the next '
+                       'reservation is bound to an item that is already reserved (duplicate binding)')
+    return True, 'inserted below the reserved suffix block'
+
+
+def get_ok(s, pa):
+    evs = pa.events
+    idx_ev = next((e for e in evs if e.kind == 'index' and e.list == RE), None)
+    if idx_ev is None:
+        return False, 'get does not locate the token in reserved_events'
+    k = idx_ev.result
+    tok = idx_ev.val
+    re_rm = [e for e in evs if e.kind == 'op' and e.list == RE and e.op in ('pop', 'remove')]
+    if len(re_rm) != 1:
+        return False, f'{len(re_rm)} removals from reserved_events'
+    e = re_rm[0]
+    if not ((e.op == 'pop' and same_index(e.idx, k)) or (e.op == 'remove' and e.val == tok)):
+        return False, 'the entry removed from reserved_events is not the token of this get'
+    if s.has_ri:
+        ri = [x for x in evs if x.kind == 'op' and x.list == RI and x.op in ('pop', 'remove')]
+        if len(ri) != 1 or ri[0].op != 'pop' or not same_index(ri[0].idx, k):
+            return False, 'reserved_items is not popped at the index the token had in reserved_events'
+        item = ri[0].result
+        a = [x for x in evs if x.kind == 'op' and x.list == s.avail and x.op in ('pop', 'remove')]
+        if len(a) != 1 or not (a[0].op == 'remove' and a[0].val == item):
+            return False, f'the item removed from {s.avail} is not the one bound to the token'
+        if pa.st.ret != item:
+            return False, 'get returns something other than the bound item'
+    else:
+        a = [x for x in evs if x.kind == 'op' and x.list == s.avail and x.op in ('pop', 'remove')]
+        if len(a) != 1 or a[0].op != 'pop' or not same_index(a[0].idx, k):
+            return False, f'{s.avail} is not popped at the index the token has in reserved_events'
+        # the index must have been computed while both lists were aligned (before either was modified)
+        if pa.st.ret != a[0].result:
+            return False, 'get returns something other than the item at the token position'
+    return True, ''
+
+
+def same_index(a, b):
+    return a is not None and b is not None and a[:3] == b[:3]
+
+
+def cancel_ok(s, kind, pa):
+    evs = pa.events
+    A = s.avail
+    ins = [e for e in evs if e.kind == 'op' and e.list == A and e.op in ('insert', 'append')]
+    rem = [e for e in evs if e.kind == 'op' and e.list == A and e.op in ('pop', 'remove')]
+    if len(ins) != 1 or len(rem) != 1:
+        return False, f'cancellation performs {len(rem)} removal(s) and {len(ins)} insertion(s) on {A} (expected 1 and 1)', (ins or rem or [None])[0]
+    i, rm = ins[0], rem[0]
+    if evs.index(rm) > evs.index(i):
+        return False, 'the released item is re-inserted before it is taken out', i
+    moved = rm.result if rm.op == 'pop' else rm.val
+    if i.val != moved:
+        return False, 'the item re-inserted is not the item released', i
+    if i.op == 'append':
+        idx = i.len_before
+    else:
+        idx = as_lin(i.idx)
+    if idx is None:
+        return False, f're-insertion index {short(i.idx)} is not a linear expression of the list lengths', i
+    # |RE| when the cancellation has finished its own work: at the first trigger call after the insertion (before the
+    # service loop runs), else at the end of the path
+    after = [x for x in evs[evs.index(i):] if x.kind == 'call' and x.name in TRIGGERS]
+    re_ops = [x for x in evs if x.kind == 'op' and x.list == RE]
+    if after and (not re_ops or evs.index(re_ops[-1]) < evs.index(after[0])):
+        re_final = sum_lin([RE], after[0].g, after[0].dl)
+    else:
+        re_final = sum_lin([RE], pa.st.gen, pa.st.delta)
+    a_at_insert = i.len_before           # |A| after the removal, before the insertion
+    if kind in ('prefix', 'positional'):
+        want = re_final
+        desc = '|RE| after the cancellation (first among the unreserved items)'
+    else:
+        want = lin.ladd(a_at_insert, re_final, -1)
+        desc = '|A| − |RE| after the cancellation (just below the reserved top block)'
+    if lin.norm(idx) != lin.norm(want):
+        return False, (f'released item re-inserted at index {lin.show(idx)}, the {kind} discipline of the binder needs {lin.show(want)} = {desc}: '
+                       f'items change order / a later reservation is bound to an item that is already reserved'), i
+    # the token leaves RE (and RI) at the same index
+    return True, f're-inserted at {lin.show(idx)} = {desc}', i
+
+
+# -------------------------------------------------------------------------------------------- R4
+def check_lockstep(p, w, r, rule):
+    s = w.store
+    lists = [RE, RG] + ([RI] if s.has_ri else [])
+    sites = {}
+    for root, ps in w.roots.items():
+        for pa in ps:
+            if pa.raises:
+                continue
+            evs = pa.events
+            base = {L: 0 for L in lists}
+
+            failed = [False]
+
+            def check_point(g, dl, label, e):
+                if failed[0]:
+                    return
+                key = f'{s.ci.label}.{root}::lockstep@{label}'
+                # deltas relative to the last stable point must be equal (generations are bumped together at yields)
+                d = [dl.get(L, 0) for L in lists]
+                gen = [g.get(L, 0) for L in lists]
+                ok = len(set(d)) == 1
+                rec = sites.setdefault(key, {'ok': True, 'e': e, 'pa': pa, 'why': ''})
+                if not ok:
+                    failed[0] = True
+                if not ok and rec['ok']:
+                    rec.update(ok=False, pa=pa, e=e, why='Δ' + ', Δ'.join(f'|{L}|={x:+d}' for L, x in zip(lists, d)) + ' at this point: the binding lists are out of step')
+            for i, e in enumerate(evs):
+                if e.kind == 'yield':
+                    check_point(e.g, e.dl, f'yield#{e.line}', e)
+                elif e.kind == 'call' and e.name in TRIGGERS:
+                    check_point(e.g, e.dl, f'call:{e.name}', e)
+                    # atomic binding: a trigger call between RG.append and the RE append
+                elif e.kind == 'op' and e.list == RG and e.op == 'append':
+                    # find the matching RE append; nothing that reads the lists may run in between
+                    key = site(e.fi, e.node, 'atomic-binding')
+                    rec = sites.setdefault(key, {'ok': True, 'e': e, 'pa': pa, 'why': ''})
+                    j = next((k for k in range(i + 1, len(evs)) if evs[k].kind == 'op' and evs[k].list == RE and evs[k].op == 'append'), None)
+                    between = evs[i + 1:j] if j is not None else evs[i + 1:]
+                    bad = [x for x in between if x.kind in ('call', 'yield', 'enter') and (x.kind != 'enter' or x.name in TRIGGERS or x.name.startswith('_do_reserve'))]
+                    if (j is None or bad) and rec['ok']:
+                        what = 'the binding is never recorded' if j is None else f'`{bad[0].d.get("name", "yield")}` runs at line {bad[0].line}'
+                        rec.update(ok=False, pa=pa, e=e, why=f'between reservations_get.append and reserved_events.append {what}: '
+                                                              f'the service loop can re-enter with |RG| ≠ |RE| and bind / pop the wrong entry')
+                    # strict guard
+                    key2 = site(e.fi, e.node, 'strict-get-guard')
+                    rec2 = sites.setdefault(key2, {'ok': True, 'e': e, 'pa': pa, 'why': ''})
+                    atoms = events_atoms(evs[:i])
+                    before = dict(e.dl)
+                    before[RG] = before.get(RG, 0) - 1
+                    strict = ('<', lin.norm(lin.ladd(sum_lin([RG], e.g, before), sum_lin([s.avail], e.g, e.dl), -1)))
+                    if not lin.implies(atoms, strict) and rec2['ok']:
+                        rec2.update(ok=False, pa=pa, e=e, why=f'retrieval granted although `{lin.atom_show(strict)}` is not implied: a reservation without its own item')
+            check_point(pa.st.gen, pa.st.delta, f'exit[{status_str(pa.status)}]', None)
+    for key, rec in sorted(sites.items()):
+        e = rec['e']
+        fi = e.fi if e is not None else None
+        f = src(fi.module) if fi else src(s.ci.module)
+        line = e.line if e is not None else s.ci.node.lineno
+        if rec['ok']:
+            r.ok(rule, key, 'in step', f, line)
+        else:
+            r.fail(rule, key, rec['why'], f, line, rec['pa'].describe())
